@@ -113,6 +113,13 @@ class Arr:
         return Arr(rec(self.a, 0), self.shape)
 
 
+class SymIter:
+    """an iterable of symbolic length: item getter by position (0-based)"""
+
+    def __init__(self, length, getter):
+        self.length, self.getter = length, getter
+
+
 class NS:
     """attribute-style namespace"""
 
@@ -1157,7 +1164,30 @@ class Ctx:
         a = bind_args(fn, args, kwargs, self, skip_self=recv is not None)
         if recv is not None:
             a.self = recv
-        return callee.apply(self, a, n)
+        res = callee.apply(self, a, n)
+        # arrays are values bound to names; a callee that writes into an array parameter publishes the new
+        # value in a.__dict__["_out"] = {param: Arr}; rebind the caller's variable (or let the contract map a view back)
+        outs = a.__dict__.get("_out") or {}
+        if outs:
+            params = [x.arg for x in fn.args.posonlyargs + fn.args.args]
+            if recv is not None and params and params[0] in ("self", "cls"):
+                params = params[1:]
+            argnodes = {}
+            for i, an in enumerate(n.args):
+                if i < len(params) and not isinstance(an, ast.Starred):
+                    argnodes[params[i]] = an
+            for k in n.keywords:
+                if k.arg:
+                    argnodes[k.arg] = k.value
+            for pname, newarr in outs.items():
+                an = argnodes.get(pname)
+                if isinstance(an, ast.Name):
+                    self.env[an.id] = newarr
+                else:
+                    r = self.contract.call(self, "__writeback__", [an, newarr, a[pname]], {}, n)
+                    if r is NotImplemented:
+                        raise Unsupported(f"callee writes into argument {pname!r} that is not a plain variable (line {n.lineno})")
+        return res
 
     # builtins ------------------------------------------------------------------------
     def bi_min(self, args, kw, n):
@@ -1281,6 +1311,8 @@ class Ctx:
         return ("range",) + tuple(args)
 
     def bi_enumerate(self, args, kw, n):
+        if isinstance(args[0], Arr):
+            return SymIter(args[0].shape[0], lambda t, a=args[0]: (t, a.get([t])))
         return tuple(enumerate(self.iter_concrete(args[0], n)))
 
     def bi_zip(self, args, kw, n):
@@ -1617,7 +1649,12 @@ class Ctx:
             cond = (lambda x: num_cmp("<", x, stop)) if sign > 0 else (lambda x: num_cmp(">", x, stop))
             seq_mode = False
         else:
-            r = self.contract.call(self, "__iter__", [it], {}, s)
+            if isinstance(it, Arr) and it.ndim == 1:
+                r = (it.shape[0], lambda t, a=it: a.get([t]))
+            elif isinstance(it, SymIter):
+                r = (it.length, it.getter)
+            else:
+                r = self.contract.call(self, "__iter__", [it], {}, s)
             if r is NotImplemented:
                 raise Unsupported(f"for over {it!r} at line {s.lineno}")
             length, getter = r  # symbolic length and item getter
